@@ -71,6 +71,7 @@ pub fn normalize_message(msg: &str) -> String {
 
 thread_local! {
     static LAST: RefCell<Option<PanicInfo>> = const { RefCell::new(None) };
+    static DEPTH: RefCell<u32> = const { RefCell::new(0) };
 }
 
 static FN_CACHE: Mutex<Option<HashMap<(String, u32), String>>> = Mutex::new(None);
@@ -140,6 +141,10 @@ pub fn install() {
                 .map(|l| (l.file().to_string(), l.line()))
                 .unwrap_or(("?".to_string(), 0));
 
+            if DEPTH.with(|d| *d.borrow()) == 0 {
+                // not inside a `catch` region: a bug of the harness itself, keep it visible
+                eprintln!("harness panic at {file}:{line}: {message}");
+            }
             let key = (file.clone(), line);
             let cached = {
                 let guard = FN_CACHE.lock().unwrap_or_else(|e| e.into_inner());
@@ -171,7 +176,10 @@ pub fn install() {
 pub fn catch<T>(f: impl FnOnce() -> T) -> Result<T, PanicInfo> {
     install();
     LAST.with(|l| *l.borrow_mut() = None);
-    match catch_unwind(AssertUnwindSafe(f)) {
+    DEPTH.with(|d| *d.borrow_mut() += 1);
+    let r = catch_unwind(AssertUnwindSafe(f));
+    DEPTH.with(|d| *d.borrow_mut() -= 1);
+    match r {
         Ok(v) => Ok(v),
         Err(_) => Err(LAST.with(|l| l.borrow_mut().take()).unwrap_or(PanicInfo {
             message: "<panic without hook record>".into(),
